@@ -2,7 +2,7 @@
 # reverify_seeds.sh [ids...] : re-confirm every stored seed against /repo's CURRENT HEAD (after fix: commits):
 # patch applies, demo passes clean / fails patched, pinned suite unchanged with the patch.  Prints one line per seed.
 cd /verif/seeded
-ids=${@:-$(ls -d C??_? | tr '\n' ' ')}
+ids=${@:-$(ls -d C??_* | tr '\n' ' ')}
 one() {
   id=$1; W=/tmp/rvseed_$id; src=/verif/seeded/$id
   git -C /repo worktree add --detach $W >/dev/null 2>&1 || { echo "$id: worktree failed"; return; }
